@@ -632,7 +632,7 @@ def merge_stats(stats):
             elif isinstance(v, list):
                 tot.setdefault(k, [])
                 for x in v:
-                    if x not in tot[k] and len(tot[k]) < 100000:
+                    if len(tot[k]) < 2000000:
                         tot[k].append(x)
             elif isinstance(v, dict):
                 d = tot.setdefault(k, {})
